@@ -3,6 +3,7 @@ From Coq Require Import ZArith NArith List Bool Reals Floats.
 From PV Require Import Num NumR model.Optimiser model.OptSpec proofs.OptStruct proofs.OptLoop proofs.FloatFacts proofs.FloatZero proofs.HillClimb proofs.RealFacts.
 From PV Require Import model.Cli gen.GenCli proofs.CliFacts.
 From PV Require Import gen.GenFns model.Iter model.Pipeline proofs.ListLemmas proofs.SrcOpt.
+From PV Require Import proofs.SourceHeadlinesOpt.
 
 Theorem C18_kt_schedule :
   forall (NN : Num) (fexp : carrier NN -> carrier NN) (score : N -> list (carrier NN) -> option
@@ -205,4 +206,13 @@ Theorem C18_optimiser_source_translated :
     translated_gen_set_sampled = true.
 Proof. exact optimiser_source_translated. Qed.
 Print Assumptions C18_optimiser_source_translated.
+
+
+Theorem C18_source_kt_schedule :
+  forall (NN : Num) (fexp : carrier NN -> carrier NN) (score : N -> list (carrier NN) -> option
+    (carrier NN)) (c : cfg NN) (ps : list (carrier NN)) (hs : list (handle NN)) (s0 : carrier
+    NN) (draws : list (draw NN)), kt_inv NN c (fold_left (src_advance NN fexp score c) draws
+    (src_init NN c ps hs s0)).
+Proof. exact source_kt_schedule. Qed.
+Print Assumptions C18_source_kt_schedule.
 
